@@ -93,6 +93,17 @@ def generate(g, tier):
             if new != lines[i] and not new.startswith(unit * d + unit) or kind == 'overdeep':
                 bad = lines[:i] + [new] + lines[i + 1:]
                 cases.append(dict(op='compile', src=dict(text='\n'.join(bad)), meta=dict(family='ill-' + kind, badline=i + 1)))
+        # a whole well-indented script shifted to the right by one common margin (every line, or every code line): its first code line
+        # is indented with no code line before it — a tab error naming that line, as a string, as a list of lines and as a file
+        if g.chance(0.25):
+            margin = r.choice([' ', '  ', '    ', '\t', unit])
+            shifted = [(margin + l) if (l.strip() or g.chance(0.5)) else l for l in lines]
+            first = next(i for i, l in enumerate(shifted) if l.strip())
+            form = r.choice(['text', 'lines', 'file'])
+            meta = dict(family='ill-margin', badline=first + 1, nocorr=(form == 'file'))
+            if form == 'text': cases.append(dict(op='compile', src=dict(text='\n'.join(shifted)), meta=meta))
+            elif form == 'lines': cases.append(dict(op='compile', src=dict(lines=shifted), meta=meta))
+            else: cases.append(dict(op='compile_file', file='proj/main.txt', files={'proj/main.txt': '\n'.join(shifted)}, meta=meta))
         # indentation that only LOOKS like the unit: a no-break / ideographic / em space (white space to Python, not the unit)
         if len(unit) >= 2 and unit.strip(' ') == '':
             odd = r.choice(['\u00a0', '\u3000', '\u2003', '\x0c'])
